@@ -43,7 +43,7 @@ def judge(st, sid, case, res, exp, label):
     st.evaluations += 1
     if res.status in ('crash', 'hang'):
         st.violation('%s:%s' % (res.status, engine.sanitizer_summary(res.info)), full_script(sid, case),
-                     'a return code', res.info[-1500:])
+                     'a return code', engine.excerpt(res.info))
         return
     rcs = res.all('r parse_buf')
     dump = res.first('dump ')
